@@ -1,19 +1,25 @@
 #!/usr/bin/env python3
 """import_seed.py CNN : copy /tmp/seed_out/CNN/{seed_X.diff,demo_X.py,NOTES.md} to /verif/seeded/CNN-X/."""
 import json, os, shutil, sys
-for pid in sys.argv[1:]:
-    src = f"/tmp/seed_out/{pid}"
+args = sys.argv[1:]
+rnd = 1
+if args and args[0] == "--round":
+    rnd = int(args[1]); args = args[2:]
+SRC = "/tmp/seed_out" if rnd == 1 else f"/tmp/seed{rnd}_out"
+for pid in args:
+    src = f"{SRC}/{pid}"
     for x in "AB":
         d = f"{src}/seed_{x}.diff"
         if not os.path.exists(d):
             print("missing", d); continue
-        dst = f"/verif/seeded/{pid}-{x}"
+        letter = x if rnd == 1 else chr(ord(x) + 2 * (rnd - 1))
+        dst = f"/verif/seeded/{pid}-{letter}"
         os.makedirs(dst, exist_ok=True)
         shutil.copy(d, f"{dst}/patch.diff")
         shutil.copy(f"{src}/demo_{x}.py", f"{dst}/demo.py")
         if os.path.exists(f"{src}/NOTES.md"):
             shutil.copy(f"{src}/NOTES.md", f"{dst}/NOTES.md")
-        meta = {"name": f"{pid}-{x}", "property": pid,
+        meta = {"name": f"{pid}-{letter}", "property": pid, "round": rnd,
                 "origin": "written by an independent sub-agent that saw only the property text and its own scratch worktree of /repo (nothing from /verif)",
                 "needs_to_manifest": "see NOTES.md (section for change %s)" % x,
                 "files_changed": sorted({l[6:].strip() for l in open(d) if l.startswith("+++ b/")})}
